@@ -46,7 +46,17 @@ RP_CONTRACTS = ['pexpect.utils.select_ignore_interrupts', 'pexpect.utils.poll_ig
                 'pexpect.socket_pexpect.SocketSpawn.read_nonblocking']
 READS = RP_CONTRACTS[2:]
 
+PXC = 'pexpect.pxssh.pxssh.'
+
 PROPS = {
+    'C17': {
+        'contracts': [PXC + 'login', (PXC + 'set_unique_prompt', 'verify'), PXC + 'prompt'],
+        'assumptions': [
+            'expect() is a non-deterministic oracle: it may return any index of the list it is given, or raise EOF / TIMEOUT exactly when that marker is not listed (C04); sendline / close / _spawn are recorded as dialogue events',
+            'login() is analysed for explicit username, no ssh key / tunnels / config file (the option handling before the dialogue only builds the command line); all dialogue paths are enumerated (the dialogue is loop-free)',
+            'sync_original_prompt() (timing heuristic on the echoed prompt, levenshtein distance) is an oracle returning True or False; that prompt() delimits each command exactly depends on the remote shell honouring the unique prompt',
+        ],
+    },
     'C06': {
         'contracts': RP_CONTRACTS,
         'assumptions': [
